@@ -70,72 +70,153 @@ def _known_variant(blk, ret_local):
     return None
 
 
-def _switch_after(B, start, dest_local):
-    """(statements to replay, {value: target}, otherwise) when straight-line code from block `start` leads to a switch on
-    the discriminant (or the bool value) of `dest_local`; else None"""
-    sts = []
-    cur = start
-    for _ in range(5):
+def _place_of(op):
+    if not isinstance(op, dict):
+        return None
+    return op.get("mv") or op.get("cp")
+
+
+def _thread_from(B, site_bb, ret_local, variant, max_steps=16):
+    """`site_bb` ends in a goto and leaves the enum variant / bool `variant` in `ret_local`. Follow the straight-line code
+    behind it (moves, `Poll::Ready(..)` wrapping and unwrapping, `?`'s Try::branch, drops) and, if it ends in a switch on
+    that very value, give this path its own copy of that code ending in a jump to the arm taken. Tail duplication: every
+    statement and call still runs, only the join with the helper's other return paths is undone."""
+    facts = {ret_local: variant}
+    payload = {}
+    dv = {}
+    chain = []
+    t0 = B["blocks"][site_bb]["term"]
+    if not t0 or t0["t"] not in ("goto", "drop") or t0.get("to") is None:
+        return False
+    cur = t0["to"]
+
+    def kill(l):
+        facts.pop(l, None)
+        dv.pop(l, None)
+        for k in [k for k in payload if k[0] == l]:
+            payload.pop(k)
+
+    for _ in range(max_steps):
         blk = B["blocks"][cur]
+        if blk.get("cleanup"):
+            return False
+        for st in blk["st"]:
+            if st.get("s") != "assign":
+                continue
+            pl = st["pl"]
+            if pl.get("p"):
+                continue
+            l = pl["l"]
+            rv = st["rv"]
+            if rv["k"] == "use":
+                q = _place_of(rv["op"])
+                if q is not None and not q.get("p") and q["l"] in facts:
+                    v = facts[q["l"]]
+                    pay = {(l,) + k[1:]: x for k, x in payload.items() if k[0] == q["l"]}
+                    kill(l)
+                    facts[l] = v
+                    payload.update(pay)
+                elif q is not None and len(q.get("p", [])) == 2 and isinstance(q["p"][0], dict) and "d" in q["p"][0] and isinstance(q["p"][1], dict) and "f" in q["p"][1] and (q["l"], q["p"][0]["d"], q["p"][1]["f"]) in payload:
+                    v = payload[(q["l"], q["p"][0]["d"], q["p"][1]["f"])]
+                    kill(l)
+                    facts[l] = v
+                elif "c" in rv["op"] and "bool" in rv["op"]["c"]:
+                    kill(l)
+                    facts[l] = "1" if rv["op"]["c"]["bool"] else "0"
+                else:
+                    kill(l)
+            elif rv["k"] == "agg" and rv.get("ak") == "adt" and "vi" in rv:
+                inner = {}
+                for i, op in enumerate(rv["ops"]):
+                    q = _place_of(op)
+                    if q is not None and not q.get("p") and q["l"] in facts:
+                        inner[(l, rv.get("variant"), i)] = facts[q["l"]]
+                kill(l)
+                facts[l] = str(rv["vi"])
+                payload.update(inner)
+            elif rv["k"] == "discr":
+                q = rv["pl"]
+                kill(l)
+                if not q.get("p") and q["l"] in facts:
+                    dv[l] = facts[q["l"]]
+            else:
+                kill(l)
         t = blk["term"]
         if not t:
-            return None
-        sts += blk["st"]
+            return False
         if t["t"] == "switch":
-            p = t["discr"].get("mv") or t["discr"].get("cp")
-            if not p or p.get("p"):
-                return None
-            ok = p["l"] == dest_local
-            if not ok:
-                for st in sts:
-                    if st.get("s") == "assign" and st["pl"]["l"] == p["l"] and not st["pl"].get("p") and st["rv"]["k"] == "discr":
-                        q = st["rv"]["pl"]
-                        ok = q["l"] == dest_local and not q.get("p")
-            if not ok:
-                return None
-            return sts, dict((a, b) for a, b in t["arms"]), t["otherwise"]
-        if t["t"] in ("goto", "falseunwind", "falseedge"):
+            q = _place_of(t["discr"])
+            if q is None or q.get("p"):
+                return False
+            val = dv.get(q["l"], facts.get(q["l"]) if B["locals"][q["l"]]["ty"] == "bool" else None)
+            if val is None:
+                return False
+            arms = dict((a_, b_) for a_, b_ in t["arms"])
+            tgt = arms.get(val, t["otherwise"])
+            # clone the chain
+            first = len(B["blocks"])
+            ids = {}
+            for i, c in enumerate(chain + [cur]):
+                ids[c] = first + i
+            for c in chain:
+                nb = copy.deepcopy(B["blocks"][c])
+                nb["term"]["to"] = ids[B["blocks"][c]["term"]["to"]]
+                B["blocks"].append(nb)
+            last = copy.deepcopy(blk)
+            last["term"] = {"t": "goto", "to": tgt, "sp": _sp(t)}
+            B["blocks"].append(last)
+            B["blocks"][site_bb]["term"]["to"] = first
+            return True
+        if t["t"] in ("goto", "falseunwind", "falseedge", "drop"):
+            chain.append(cur)
+            cur = t["to"]
+        elif t["t"] == "call" and t.get("to") is not None and not t["dest"].get("p"):
+            d = t["dest"]["l"]
+            nm = _callee_decl(t) or ""
+            a0 = _place_of(t["args"][0]) if t["args"] else None
+            known = None
+            if re.search(r"Try>?::branch$", nm) and a0 is not None and not a0.get("p") and a0["l"] in facts:
+                ty = B["locals"][a0["l"]]["ty"]
+                v = facts[a0["l"]]
+                if re.match(r"^(std|core)::result::Result<", ty):
+                    known = v
+                elif re.match(r"^(std|core)::option::Option<", ty):
+                    known = "0" if v == "1" else "1"
+            kill(d)
+            if known is not None:
+                facts[d] = known
+            chain.append(cur)
             cur = t["to"]
         else:
-            return None
-    return None
+            return False
+        if cur in chain:
+            return False
+    return False
 
 
-def _thread_returns(B, first, last, ret_bb, ret_local, dest, cont):
-    """return sites of the spliced body (blocks first..last-1 jumping to ret_bb) that leave a known enum variant / bool in
-    the result go straight to the arm the caller's `match` on the result takes for it (the statements in between are
-    replayed). Without this, everything after the call would look reachable from every return of the helper."""
-    if dest.get("p") or cont is None:
-        return
-    sw = _switch_after(B, cont, dest["l"])
-    if sw is None:
-        return
-    sts, arms, other = sw
+def _thread_returns(B, first, last, ret_bb, ret_local):
+    """see _thread_from; applied to every return site of a body that was just spliced in (blocks first..last-1, all jumping
+    to ret_bb with their result in ret_local)"""
     sites = []
     for bi in range(first, last):
         t = B["blocks"][bi]["term"]
         if t and t["t"] == "goto" and t["to"] == ret_bb:
             sites.append(bi)
-    # a bare `return` block reached by several `_0 = ..; goto` blocks: look one step back
-    expanded = []
+    work = []
     for bi in sites:
         blk = B["blocks"][bi]
-        if _known_variant(blk, ret_local) is None and not any(st.get("s") == "assign" for st in blk["st"]):
+        v = _known_variant(blk, ret_local)
+        if v is not None:
+            work.append((bi, v))
+        elif not any(st.get("s") == "assign" for st in blk["st"]):
+            # a bare `return` block reached by several `_0 = ..; goto` blocks: look one step back
             preds = [pi for pi in range(first, last) if (B["blocks"][pi]["term"] or {}).get("t") == "goto" and B["blocks"][pi]["term"]["to"] == bi]
-            if preds and all(_known_variant(B["blocks"][pi], ret_local) is not None for pi in preds):
-                for pi in preds:
-                    expanded.append((pi, list(blk["st"])))
-                continue
-        expanded.append((bi, []))
-    for bi, extra in expanded:
-        v = _known_variant(B["blocks"][bi], ret_local)
-        if v is None:
-            continue
-        tgt = arms.get(v, other)
-        sp = _sp(B["blocks"][bi]["term"])
-        nb = {"cleanup": False, "st": copy.deepcopy(extra) + [_use(dest, {"mv": {"l": ret_local}}, sp)] + copy.deepcopy(sts), "term": {"t": "goto", "to": tgt, "sp": sp}}
-        B["blocks"].append(nb)
-        B["blocks"][bi]["term"] = {"t": "goto", "to": len(B["blocks"]) - 1, "sp": sp}
+            for pi in preds:
+                pv = _known_variant(B["blocks"][pi], ret_local)
+                if pv is not None:
+                    work.append((pi, pv))
+    for bi, v in work:
+        _thread_from(B, bi, ret_local, v)
 
 
 def _inline_sync(B, k, C):
@@ -163,7 +244,7 @@ def _inline_sync(B, k, C):
         if j + 1 <= C["argc"]:
             blk["st"].append(_use({"l": loff + 1 + j}, a, sp))
     blk["term"] = {"t": "goto", "to": boff, "sp": sp}
-    _thread_returns(B, boff, ret_bb, ret_bb, loff, t["dest"], t.get("to"))
+    _thread_returns(B, boff, ret_bb, ret_bb, loff)
 
 
 def _copies(B, l):
@@ -306,8 +387,33 @@ def _inline_async(B, k, Cf, Cc):
         if tt and tt["t"] == "return":
             blk["term"] = {"t": "goto", "to": ret_bb, "sp": _sp(tt)}
     B["blocks"].extend(cb)
-    ready_st = {"s": "assign", "pl": poll_dest, "rv": {"k": "agg", "ak": "adt", "adt": "std::task::Poll", "variant": "Ready", "vi": 0, "fields": ["0"], "ops": [{"mv": {"l": loff}}]}, "sp": sp}
-    B["blocks"].append({"cleanup": False, "st": [ready_st], "term": {"t": "goto", "to": ready, "sp": sp}})
+    # where the caller takes the value out of `Poll::Ready(v)`, the spliced body hands its result over directly (a copy of
+    # the ready arm's first blocks with `(poll as Ready).0` replaced by the result); failing that, wrap it in a Poll::Ready
+    ret_block = None
+    cur = ready
+    pre = []
+    for _ in range(4):
+        rb = B["blocks"][cur]
+        hit = None
+        for si, st in enumerate(rb["st"]):
+            if st.get("s") == "assign" and st["rv"]["k"] == "use":
+                q = st["rv"]["op"].get("mv") or st["rv"]["op"].get("cp")
+                if q and q["l"] == poll_dest["l"] and len(q.get("p", [])) == 2 and isinstance(q["p"][0], dict) and q["p"][0].get("d") == "Ready":
+                    hit = si
+        if hit is not None:
+            sts = copy.deepcopy(pre + rb["st"])
+            sts[len(pre) + hit]["rv"]["op"] = {"mv": {"l": loff}}
+            ret_block = {"cleanup": False, "st": sts, "term": copy.deepcopy(rb["term"])}
+            break
+        if rb["term"] and rb["term"]["t"] in ("goto", "falseedge", "falseunwind"):
+            pre = pre + rb["st"]
+            cur = rb["term"]["to"]
+        else:
+            break
+    if ret_block is None:
+        ready_st = {"s": "assign", "pl": poll_dest, "rv": {"k": "agg", "ak": "adt", "adt": "std::task::Poll", "variant": "Ready", "vi": 0, "fields": ["0"], "ops": [{"mv": {"l": loff}}]}, "sp": sp}
+        ret_block = {"cleanup": False, "st": [ready_st], "term": {"t": "goto", "to": ready, "sp": sp}}
+    B["blocks"].append(ret_block)
     # the call site: bind the captured arguments, skip the call
     blk = B["blocks"][k]
     for u, pl in enumerate(param_of_upvar):
@@ -317,10 +423,47 @@ def _inline_async(B, k, Cf, Cc):
     # the await: run the body instead of polling
     ab = B["blocks"][a_bb]
     ab["term"] = {"t": "goto", "to": boff, "sp": _sp(ab["term"])}
+    _thread_returns(B, boff, ret_bb, ret_bb, loff)
     return True
 
 
-def inline_new_helpers(raws, is_new):
+def _async_as_block(B, k, Cf, Cc, taken):
+    """the future of the async helper is not awaited in place (it is spawned, selected on, stored): present it the way an
+    `async move { .. }` block written at the call site would look - a coroutine built from the arguments whose body is
+    nested in the caller. Returns the new body dict or None."""
+    t = B["blocks"][k]["term"]
+    if t.get("to") is None:
+        return None
+    agg = None
+    for blk in Cf["blocks"]:
+        for st in blk["st"]:
+            if st.get("s") == "assign" and st["rv"]["k"] == "agg" and st["rv"].get("ak") == "coroutine" and st["pl"]["l"] == 0 and not st["pl"].get("p"):
+                agg = st["rv"]
+    if agg is None or agg.get("def") != Cc["path"]:
+        return None
+    ops = []
+    for op in agg["ops"]:
+        p = op.get("mv") or op.get("cp")
+        if not p or p.get("p") or not (1 <= p["l"] <= Cf["argc"]) or p["l"] - 1 >= len(t["args"]):
+            return None
+        ops.append(t["args"][p["l"] - 1])
+    n = 0
+    while "%s::{closure#%d}" % (B["path"], n) in taken:
+        n += 1
+    newpath = "%s::{closure#%d}" % (B["path"], n)
+    taken.add(newpath)
+    nb = copy.deepcopy(Cc)
+    nb["path"] = newpath
+    nb["parent"] = B["path"]
+    nb["_was"] = Cc["path"]
+    sp = _sp(t)
+    blk = B["blocks"][k]
+    blk["st"].append({"s": "assign", "pl": t["dest"], "rv": {"k": "agg", "ak": "coroutine", "def": newpath, "ops": ops}, "sp": sp})
+    blk["term"] = {"t": "goto", "to": t["to"], "sp": sp}
+    return nb
+
+
+def inline_new_helpers(raws, is_new, only_into_new=False, prior=None):
     """raws: parsed fact files (modified in place). is_new(body dict, crate) -> bool. Returns {helper path: [caller paths]}."""
     by_path = {}
     crate_of = {}
@@ -331,20 +474,25 @@ def inline_new_helpers(raws, is_new):
                 crate_of[b["path"]] = d["crate"]
     new = {p: b for p, b in by_path.items() if b["kind"] in ("Fn", "AssocFn") and is_new(b, crate_of[p])}
     if not new:
-        return {}, set()
+        return {}, set(), {}
     pristine = {p: copy.deepcopy(b) for p, b in new.items()}
     for p in list(new):
         cp = p + "::{closure#0}"
         if by_path.get(p, {}).get("asyncness") and cp in by_path:
             pristine[cp] = copy.deepcopy(by_path[cp])
-    done = {}
+    done = {h: list(cs) for h, cs in (prior or {}).items() if h in new}
+    added = []
+    taken = set(by_path)
+    reparent = {}
     for _ in range(MAX_ROUNDS):
         changed = False
         # the bodies to splice in are refreshed each round, so helpers of helpers arrive already expanded
         snap = {p: copy.deepcopy(by_path[p]) for p in pristine}
         for d in raws:
-            for B in d["bodies"]:
+            for B in list(d["bodies"]):
                 if B["kind"] not in ("Fn", "AssocFn", "Closure") or len(B["blocks"]) > MAX_BLOCKS:
+                    continue
+                if only_into_new and not (B["path"] in new or any(B["path"].startswith(h + "::") for h in new)):
                     continue
                 nb = len(B["blocks"])
                 for k in range(nb):
@@ -357,18 +505,48 @@ def inline_new_helpers(raws, is_new):
                     Cf = snap[cp]
                     if Cf.get("asyncness"):
                         Cc = snap.get(cp + "::{closure#0}")
-                        if Cc is None or not _inline_async(B, k, Cf, Cc):
+                        if Cc is None:
                             continue
+                        if not _inline_async(B, k, Cf, Cc):
+                            nbody = _async_as_block(B, k, Cf, Cc, taken)
+                            if nbody is None:
+                                continue
+                            added.append(nbody)
+                            d["bodies"].append(nbody)
+                            by_path[nbody["path"]] = nbody
+                            reparent[Cc["path"]] = nbody["path"]
                     else:
                         if any((bl["term"] or {}).get("t") == "tailcall" for bl in Cf["blocks"]):
                             continue
                         _inline_sync(B, k, Cf)
+                    B["_inlined"] = True
                     done.setdefault(cp, [])
                     if B["path"] not in done[cp]:
                         done[cp].append(B["path"])
                     changed = True
         if not changed:
             break
+    # in the bodies that received a helper: a value built with a known variant on one path and matched on after a join
+    # (`let res = match .. { .. Err(e) => Err(e) }; finish(res)` where finish matches on it) takes its own way to the arm
+    for d in raws:
+        for B in d["bodies"]:
+            if not B.get("_inlined") or len(B["blocks"]) > MAX_BLOCKS:
+                continue
+            n0 = len(B["blocks"])
+            for bi in range(n0):
+                blk = B["blocks"][bi]
+                t = blk["term"]
+                if blk.get("cleanup") or not t or t["t"] not in ("goto", "drop") or t.get("to") is None:
+                    continue
+                last = None
+                for st in blk["st"]:
+                    if st.get("s") == "assign" and not st["pl"].get("p"):
+                        last = st
+                if last is None:
+                    continue
+                v = _known_variant({"st": [last]}, last["pl"]["l"])
+                if v is not None:
+                    _thread_from(B, bi, last["pl"]["l"], v)
     # a helper all of whose uses were expanded is fully represented by its callers
     still = set()
 
@@ -395,4 +573,4 @@ def inline_new_helpers(raws, is_new):
                 continue  # uses inside the helpers themselves do not keep them alive
             scan(B["blocks"], False)
     removable = {h for h in done if h not in still}
-    return done, removable
+    return done, removable, reparent
